@@ -254,9 +254,19 @@ class _ReusablePoolExecutor(ProcessPoolExecutor):
             ):
                 time.sleep(1e-3)
 
+            if self._flags.broken:
+                # A worker died during the resize: the executor is broken and
+                # its queues are closed, there is nothing left to adjust.
+                return
+
             self._adjust_process_count()
             processes = list(self._processes.values())
-            while not all(p.is_alive() for p in processes):
+            # Wait for the new workers to be up. Workers that have already
+            # exited (idle timeout or crash) are skipped: waiting for them to
+            # be alive again would never terminate.
+            while not all(
+                p.is_alive() for p in processes if p.exitcode is None
+            ):
                 time.sleep(1e-3)
 
     def _wait_job_completion(self):
